@@ -214,9 +214,7 @@ impl R {
             R::Prefix(op, x) => format!("{} {}", op, operand(x)),
             R::Postfix(x, op) => format!("{} {}", operand(x), op),
             R::Infix(op, l, r) => {
-                // an assignment target must stay a bare name
-                let left = if is_assign(op) { l.render_explicit() } else { operand(l) };
-                format!("{} {} {}", left, op, operand(r))
+                format!("{} {} {}", operand(l), op, operand(r))
             }
             R::NotInfix(op, l, r) => format!("{} not {} {}", operand(l), op, operand(r)),
             R::Cond(c, a, b) => format!("{} ? {} : {}", operand(c), operand(a), operand(b)),
@@ -265,7 +263,12 @@ pub fn is_assign(op: &str) -> bool {
 pub fn sexp_ast(a: &ExprAST) -> String {
     match a {
         ExprAST::Literal(l) => match l {
-            Literal::Number(d) => format!("(num {}e-{})", d.mantissa().unsigned_abs(), d.scale()),
+            Literal::Number(d) => format!(
+                "(num {}{}e-{})",
+                if d.is_sign_negative() { "-" } else { "" },
+                d.mantissa().unsigned_abs(),
+                d.scale()
+            ),
             Literal::Bool(b) => format!("(bool {})", b),
             Literal::String(s) => format!("(str {})", sx_str(s)),
         },
